@@ -213,6 +213,17 @@ def patched_np(module_names):
             setattr(mod, name, val)
 
 
+@contextlib.contextmanager
+def guard(run, name):
+    """a (mutated) function that leaves the symbolic domain (raises inside the proxy) is UNDECIDED here, not a
+    checker crash: the obligation is recorded as unknown and the bounded tier decides"""
+    try:
+        yield
+    except Exception as e:                                   # noqa: BLE001
+        run.obligation(name, 'unknown', 'sympy-normal-form', 0.0,
+                       detail=f'symbolic execution failed: {type(e).__name__}: {str(e)[:300]}')
+
+
 def is_zero(expr):
     """exact zero test of a sympy expression by normal form"""
     if expr == 0:
